@@ -9,7 +9,7 @@ from .common import LEAN, REPO, write_if_changed
 sys.path.insert(0, str(Path(__file__).resolve().parent.parent))
 
 
-ALL = ("scopemap", "builtin", "envconfig")
+ALL = ("scopemap", "builtin", "envconfig", "checkapi")
 
 
 def regenerate(which=("scopemap",)) -> dict:
@@ -25,6 +25,9 @@ def regenerate(which=("scopemap",)) -> dict:
     if "envconfig" in which:
         from extract import envconfig
         write_if_changed(gen / "EnvConfig.lean", envconfig.render(REPO))
+    if "checkapi" in which:
+        from extract import checkapi
+        write_if_changed(gen / "CheckApi.lean", checkapi.render(REPO))
     if "builtin" in which:
         from extract import builtin_checks
         write_if_changed(gen / "BuiltinChecks.lean", builtin_checks.render(REPO))
